@@ -70,6 +70,13 @@ class Outcome:
             return True
         return any(issubclass(cl, Wd.resolve_class(c) if isinstance(c, str) else c) for c in classes)
 
+    @property
+    def code(self):
+        """abort code carried by the escaping exception (None when there is none)"""
+        if isinstance(self.exc, SObj):
+            return self.exc.fields.get("code")
+        return getattr(self.exc, "code", None)
+
     def exit_kind(self):
         if self.exc is None:
             return "return"
